@@ -104,9 +104,9 @@ theorem send_spec (c : Cfg) (s : State) (m : Bytes) (h : Inv c s) :
     StepSpec c s (.send m) (send c s m).1 (send c s m).2 := by
   unfold send
   by_cases hc : s.closed = true
-  · simp only [hc, if_true]
+  · rw [if_pos hc]
     exact ⟨h, by simp, by simp [flushMsgs, acceptedOf], by simp [receivedOf, deliveredOf], fun _ => hc⟩
-  · simp only [hc, Bool.false_eq_true, if_false]
+  · rw [if_neg hc]
     by_cases hl : entrySize m > c.maxSize
     · simp only [hl, if_true]
       exact ⟨h, by simp, by simp [flushMsgs, acceptedOf], by simp [receivedOf, deliveredOf], fun h' => absurd h' hc⟩
@@ -115,7 +115,7 @@ theorem send_spec (c : Cfg) (s : State) (m : Bytes) (h : Inv c s) :
       · simp only [hf, if_true]
         obtain ⟨c1, c2, c3, c4, c5, c6, c7, c8, _⟩ :=
           clearPending_spec c { s with timerArmed := false } h.size_eq h.size_le
-        generalize hr : clearPending c { s with timerArmed := false } = r at c1 c2 c3 c4 c5 c6 c7 c8
+        generalize clearPending c { s with timerArmed := false } = r at c1 c2 c3 c4 c5 c6 c7 c8 ⊢
         obtain ⟨a1, a2, a3, a4, a5, _⟩ := armIfFirst_fields
           { r.1 with pendingSize := r.1.pendingSize + entrySize m, pending := r.1.pending ++ [m] }
         simp only at a1 a2 a3 a4 a5 c3 c4 c5 c7 c8
@@ -153,35 +153,51 @@ theorem fire_spec (c : Cfg) (s : State) (h : Inv c s) :
     StepSpec c s .fire (fire c s).1 (fire c s).2 := by
   unfold fire
   by_cases ha : s.timerArmed = true
-  · simp only [ha, Bool.not_true, Bool.false_eq_true, if_false]
-    by_cases hc : s.closed = true
-    · simp only [hc, if_true]
-      exact ⟨⟨h.size_eq, h.size_le, h.closed_empty, fun hp => absurd (h.closed_empty hc) hp⟩,
-        by simp, by simp [flushMsgs, acceptedOf], by simp [receivedOf, deliveredOf], fun _ => hc⟩
-    · simp only [hc, Bool.false_eq_true, if_false]
-      by_cases hp : s.pending.length = 0
-      · simp only [hp, if_true]
-        exact ⟨⟨h.size_eq, h.size_le, h.closed_empty,
-            fun hp' => absurd (List.eq_nil_of_length_eq_zero hp) hp'⟩,
-          by simp, by simp [flushMsgs, acceptedOf], by simp [receivedOf, deliveredOf],
-          fun h' => absurd h' hc⟩
-      · simp only [hp, if_false]
-        obtain ⟨c1, c2, c3, c4, c5, c6, c7, c8, _⟩ :=
-          clearPending_spec c { s with timerArmed := false } h.size_eq h.size_le
-        refine ⟨⟨?_, ?_, ?_, ?_⟩, ?_, ?_, ?_, ?_⟩
-        · rw [c1, c2]; rfl
-        · rw [c2]; exact Nat.zero_le _
-        · intro _; exact c1
-        · intro hp'; exact absurd c1 hp'
-        · intro f hf'
-          simp only [Option.some.injEq] at hf'
-          subst hf'
-          exact ⟨c4, by rw [c5, c4], c6, c7⟩
-        · simp only [flushMsgs, acceptedOf]; rw [c1, c4]; simp
-        · simp only [receivedOf, deliveredOf, List.nil_append]
-          exact c8
-        · intro h'; exact absurd h' hc
-  · simp only [ha, Bool.not_false, if_true]
+  · rw [if_pos ha]
+    -- the state the callback sees: same as `s` but disarmed
+    have hs : ∀ t : State, t = { s with timerArmed := false } →
+        StepSpec c s .fire (callback c t).1 (callback c t).2 := by
+      intro t ht
+      have e1 : t.pending = s.pending := by rw [ht]
+      have e2 : t.pendingSize = s.pendingSize := by rw [ht]
+      have e3 : t.queue = s.queue := by rw [ht]
+      have e4 : t.closed = s.closed := by rw [ht]
+      unfold callback
+      by_cases hc : t.closed = true
+      · rw [if_pos hc]
+        have hcs : s.closed = true := by rw [← e4]; exact hc
+        exact ⟨⟨by rw [e1, e2]; exact h.size_eq, by rw [e2]; exact h.size_le,
+            fun _ => by rw [e1]; exact h.closed_empty hcs,
+            fun hp => absurd (by rw [e1]; exact h.closed_empty hcs) hp⟩,
+          by simp, by simp [flushMsgs, acceptedOf, e1], by simp [receivedOf, deliveredOf, e3],
+          fun _ => hc⟩
+      · rw [if_neg hc]
+        have hcs : ¬ s.closed = true := by rw [← e4]; exact hc
+        by_cases hp : t.pending.length = 0
+        · rw [if_pos hp]
+          have hnil : t.pending = [] := List.eq_nil_of_length_eq_zero hp
+          exact ⟨⟨by rw [e1, e2]; exact h.size_eq, by rw [e2]; exact h.size_le,
+              fun _ => hnil, fun hp' => absurd hnil hp'⟩,
+            by simp, by simp [flushMsgs, acceptedOf, e1], by simp [receivedOf, deliveredOf, e3],
+            fun h' => absurd h' hcs⟩
+        · rw [if_neg hp]
+          obtain ⟨c1, c2, c3, c4, c5, c6, c7, c8, _⟩ :=
+            clearPending_spec c t (by rw [e1, e2]; exact h.size_eq) (by rw [e2]; exact h.size_le)
+          refine ⟨⟨?_, ?_, ?_, ?_⟩, ?_, ?_, ?_, ?_⟩
+          · rw [c1, c2]; rfl
+          · rw [c2]; exact Nat.zero_le _
+          · intro _; exact c1
+          · intro hp'; exact absurd c1 hp'
+          · intro f hf'
+            simp only [Option.some.injEq] at hf'
+            subst hf'
+            exact ⟨by rw [c4, e1], by rw [c5, c4], c6, by rw [← e3]; exact c7⟩
+          · simp only [flushMsgs, acceptedOf]; rw [c1, c4, e1]
+          · simp only [receivedOf, deliveredOf, List.nil_append]
+            rw [c8, e3]
+          · intro h'; exact absurd h' hcs
+    exact hs _ rfl
+  · rw [if_neg ha]
     exact ⟨h, by simp, by simp [flushMsgs, acceptedOf], by simp [receivedOf, deliveredOf], fun h' => h'⟩
 
 theorem close_spec (c : Cfg) (s : State) (h : Inv c s) :
@@ -357,7 +373,7 @@ theorem fire_flushes_pending (c : Cfg) (s : State) (ha : s.timerArmed = true)
     (hc : s.closed = false) (hp : s.pending ≠ []) :
     (fire c s).1.pending = [] ∧ ∃ f, (fire c s).2.flush = some f ∧ f.msgs = s.pending := by
   have hl : ¬ s.pending.length = 0 := fun e => hp (List.eq_nil_of_length_eq_zero e)
-  unfold fire clearPending
+  unfold fire callback clearPending
   by_cases hq : s.queue.length < c.cap <;> simp [ha, hc, hl, hq]
 
 /-- nothing stays pending after `Close` -/
@@ -391,7 +407,7 @@ example :
     (flushes (run ⟨4, 10⟩ init [.send [1,2,3,4,5], .send [6,7,8,9,10], .fire]).2).map
       (fun f => (f.bytes.length, f.msgs.length, f.delivered)) = [(7, 1, true), (7, 1, true)] := by
   have h5 : Nat.log2 5 = 2 := by rw [Nat.log2_eq_iff (by decide)]; decide
-  simp [run, step, send, fire, clearPending, flushes, init, entrySize, sizeUint, encodeBatch,
-    encVarint, h5]
+  simp [run, step, send, fire, callback, armIfFirst, clearPending, flushes, init, entrySize, sizeUint,
+    encodeBatch, encVarint, h5]
 
 end HyperModel.Props.C32
